@@ -358,7 +358,19 @@ impl FileSpec {
                     .map_or(0, |n| n + 1)
             };
 
-            infix.to_string().add(&format!(".restart-{next_number:04}"))
+            // the list of siblings can be incomplete (the directory cannot always be read):
+            // never hand out a name that is taken
+            let mut next_number = next_number;
+            loop {
+                let candidate = infix.to_string().add(&format!(".restart-{next_number:04}"));
+                let path = self.as_pathbuf(Some(&candidate));
+                let mut path_with_gz = path.clone().into_os_string();
+                path_with_gz.push(".gz");
+                if !path.exists() && !PathBuf::from(path_with_gz).exists() {
+                    break candidate;
+                }
+                next_number += 1;
+            }
         } else {
             infix.to_string()
         }
